@@ -67,6 +67,19 @@ Decided structurally (clauses that are necessary for the property; the rendered 
             level) - the name branch there is checked, the indent unit may be a class constant; the sentinel guard is
             recognised for whatever value EMPTY_TASK_ID currently has; `str + x` counts as str.
             Not followed (exit 2): _Repr turned into an instance-based renderer (settings and table in self.__x).
+* round 11 - widths computed column by column (`[max(len(r.get_cell(i).text) for r in rows if i < len(r)) for i in
+            range(max((len(r) for r in rows), default=0))]`, `_colwise`) are the same list as the running maximum: measure,
+            measured rows, in-range filter and column range are each checked (min / capped / a slice of the rows / a shorter
+            range are refuted, other filters undecided).  Widths kept in an attribute of the table that only new_row updates
+            from the row that was current BEFORE it starts the next one are refuted (`_widths_kept_outside`: the last row is
+            never measured); any other bookkeeping outside text_repr stays undecided.  Two-phase rendering - the recursive
+            writer appends (colour, texts) to a list that _Repr.repr replays into the table afterwards - is rewritten to the
+            direct form before the rules run (`_inline_deferred_rows`; only when the list has no other use and the replay
+            loop is the plain `for color, values in rows:`), and the row writer is found under any name (the one method of
+            _Repr that calls itself and that _Repr.repr calls).  An entry point that renders through another entry point
+            (`self.roots.print(fields, children, theme)`, `self.roots.__repr__()`) is followed: shown tasks = those of the
+            other entry point on the receiver; print() must hand on its own fields / children / theme (a constant or a
+            default in their place is refuted).
 * depth   - indentation multiplied by a value read off the printed task alone (`len(task.all_parents)`, a helper that
             only receives the task) is refuted: the level is relative to the printed tasks and only the recursion knows it.
 
@@ -234,7 +247,8 @@ def _repr_row_writer(prog):
     except AnchorMissing:
         return None
     cands = [g for g in prog.all_funcs() if g.qual.startswith('task._Repr.') and g.qual.count('.') == 2 and g is not top
-             and facts.calls_named(g, g.name) and facts.calls_named(top, g.name)]
+             and facts.calls_named(g, g.name) and facts.calls_named(top, g.name)
+             and not any(isinstance(n, (ast.Yield, ast.YieldFrom)) for n in walk_no_nested(g.node))]      # not a walk generator
     return cands[0] if len(cands) == 1 else None
 
 
